@@ -121,6 +121,17 @@ def _poly(ctx, p, rng):
         g0 = np.array([_fl(J[0][i](xq)) for i in range(N)]); g0a = np.array([_fl(J[0][i].absval(xq)) for i in range(N)]) + 1e-12
         H0 = np.array([[_fl(H[0][i][j](xq)) for j in range(N)] for i in range(N)]); H0a = np.array([[_fl(H[0][i][j].absval(xq)) for j in range(N)] for i in range(N)])
         hs = np.max(H0a) + 1e-12
+        if ip == 1:
+            # integer point with integer direction/weights, passed as integer arrays or lists (drivers must compute in floats)
+            vi = rng.integers(-3, 4, size=N); wi = rng.integers(-3, 4, size=M)
+            xi = x.astype(int)
+            Hi = H0 @ vi; sci = np.full(N, hs * (np.sum(np.abs(vi)) + 1))
+            ok_i = [run('hess_vec', lambda: cgs.hess_vec(xi, vi), Hi, sci), run('hess_vec', lambda: cgs.hess_vec(xi.tolist(), vi.tolist()), Hi, sci),
+                    run('gradient', lambda: cgs.gradient(xi), g0, np.full(N, np.max(g0a))), run('hessian', lambda: cgs.hessian(xi), H0, np.full((N, N), hs)),
+                    run('jac_vec', lambda: cgv.jac_vec(xi, vi), Jv @ vi, Ja @ np.abs(vi) + 1e-12), run('vec_jac', lambda: cgv.vec_jac(wi, xi), wi @ Jv, np.abs(wi) @ Ja + 1e-12),
+                    run('jacobian', lambda: np.asarray(cgv.jacobian(xi)).reshape(M, N), Jv, np.full((M, N), np.max(Ja) + 1e-12))]
+            if not all(ok_i):
+                return
         oks = [
             run('gradient', lambda: cgs.gradient(x.copy()), g0, np.full(N, np.max(g0a))),
             run('hessian', lambda: cgs.hessian(x.copy()), H0, np.full((N, N), hs)),
